@@ -15,7 +15,7 @@ func propSpecs() map[string]*PropSpec {
 		Covers: []string{"has-token", "two-tokens", "number", "string", "quoted-ident", "error-token", "ident"},
 		Bounds: map[string]string{"quick": "all byte strings of length <= 2 (full byte range); length <= 3 over the focused alphabets numbers/strings/names/operators",
 			"thorough": "all byte strings of length <= 3 (full byte range); length <= 5 over the focused alphabets; length <= 4 over the layout alphabet"},
-		Outside: []string{"sources longer than the bound", "BasicLit.Float64 and Uint64 of float literals (floating point)", "string values containing invalid UTF-8 together with an escape (don't-care)", "extent of the error token for '!' followed by another character (don't-care)"},
+		Outside: []string{"sources longer than the bound", "BasicLit.Float64 and Uint64 of float literals (floating point)", "string values containing invalid UTF-8 together with an escape (don't-care)"},
 		Stubs:   []string{"unicode.IsSpace -> models.IsSpace (validated against the real table)", "utf8 decode/encode: engine model of the Go specification", "strings.{TrimLeft,ReplaceAll,ContainsAny} -> models", "strconv.{ParseUint,FormatUint} -> models", "fmt.Sprintf: error texts opaque"},
 	})
 	add(&PropSpec{
